@@ -51,9 +51,13 @@ def effects_from_tables(world, sa, da, shift):
     return out
 
 
-def model_request(ps, pd, sa, da, shift, weak, init, cache):
+ANY = (True, True, False)        # destination entity of the any_inputs model: every attribute is an input, a non-trigger one (hybrid defaults)
+
+
+def model_request(ps, pd, sa, da, shift, weak, init, cache, dst_any=False):
     parents, ids = simlib.gtab_of([ps, pd])
-    f = [SRC[sa][0], DST[da][0], DST[da][1], DST[da][2], SRC[sa][1]]
+    dfacts = ANY if dst_any else DST[da]
+    f = [SRC[sa][0], dfacts[0], dfacts[1], dfacts[2], SRC[sa][1]]
     return (f"connect_one {len(parents)} {' '.join(map(str, parents))} {ids[tuple(ps)]} {ids[tuple(pd)]} "
             + ' '.join('1' if x else '0' for x in f) + f" {shift} {int(weak)} {int(init)} {int(cache)}")
 
@@ -65,8 +69,14 @@ def canon(effects):
     return ';'.join(es)
 
 
-def spec_reject(ps, pd, sa, da, shift, weak, init):
+def spec_reject(ps, pd, sa, da, shift, weak, init, dst_any=False):
     """the statement of C11, written independently of model and code (for the monitor)"""
+    if dst_any:
+        common_len = 0
+        for x, y in zip(ps, pd):
+            if x != y: break
+            common_len += 1
+        return (not SRC[sa][0]) or ((shift or weak) and not init) or (weak and common_len == 0)
     common_len = 0
     for x, y in zip(ps, pd):
         if x != y: break
@@ -94,7 +104,13 @@ def run(out, info, tier, seed):
     corpus = [([0], [1], 'po', 'ti', 0, True, False, True), ([0, 0], [0, 1], 'po', 'ti', 0, True, False, True),
               ([0], [1], 'po', 'i', 0, True, True, False)]
     cases = corpus + cases
-    reqs = [model_request(*c) for c in cases]
+    def child_of(idx):
+        # hierarchical entities: the attribute facts that count are those of the entity's own model, not its parent's;
+        # every eighth call: the destination is an entity of a model with any_inputs (third component 2)
+        if idx < len(corpus): return (False, False)
+        if idx % 8 == 7: return (False, 2)
+        return ((idx // 2) % 2 == 1, (idx // 4) % 2 == 1)
+    reqs = [model_request(*c, dst_any=(child_of(i)[1] == 2)) for i, c in enumerate(cases)]
     model = common.batch_model(reqs) if info.driver_ok else None
     if not info.driver_ok:
         out.add_obligation('correspondence: extracted model available', False, info.driver_msg[-300:])
@@ -103,12 +119,11 @@ def run(out, info, tier, seed):
     for idx, c in enumerate(cases):
         ps, pd, sa, da, sh, w, ini, cache = c
         prior = (idx % 3 == 0) and not exhaustive or (exhaustive and idx % 2 == 0)
-        # hierarchical entities: the attribute facts that count are those of the entity's own model, not its parent's
-        child = ((idx // 2) % 2 == 1, (idx // 4) % 2 == 1) if idx >= len(corpus) else (False, False)
+        child = child_of(idx)
         res, unchanged, eff = one_case_wrapped(ps, pd, sa, da, sh, w, ini, cache, prior, child)
         seen += 1
         hist[res.split(':')[0]] = hist.get(res.split(':')[0], 0) + 1
-        want_reject = spec_reject(ps, pd, sa, da, sh, w, ini)
+        want_reject = spec_reject(ps, pd, sa, da, sh, w, ini, dst_any=(child[1] == 2))
         desc = dict(kind='connect', src_group=ps, dst_group=pd, src_attr=sa, dst_attr=da, time_shifted=sh, weak=w,
                     initial_data=ini, cache=cache, prior_connection=prior, child_entity=list(child))
         # monitor: the property itself on the implementation
@@ -158,11 +173,13 @@ def one_case_wrapped(ps, pd, sa, da, sh, w, ini, cache, prior, child=(False, Fal
                 e = real_M(**kw); ents[k['sim_id']] = e; return e
             def P(_s, **kw):
                 e = real_P(**kw); ents[k['sim_id']] = e.children[0]; return e
+            def A(_s, **kw):
+                e = getattr(mf, 'A')(**kw); ents[k['sim_id']] = e; return e
         return Wrap()
     sc.World.start = start
     try:
         case = {'n': 2, 'types': ['hybrid', 'hybrid'], 'grp': [ps, pd], 'edges': [], 'until': 2,
-                'beh': [{'type': 'hybrid', 'parent_model': bool(child[0])}, {'type': 'hybrid', 'parent_model': bool(child[1])}]}
+                'beh': [{'type': 'hybrid', 'parent_model': child[0] is True}, {'type': 'hybrid', 'parent_model': child[1] is True, 'any_inputs_model': child[1] == 2}]}
         world = simlib.build_world(case, cache=cache)
     finally:
         sc.World.start = orig
@@ -194,7 +211,8 @@ def replay(path, out):
         print(json.dumps(r, indent=1)); print('obligation replay: re-run ./check C11'); return 1
     res, unchanged, eff = one_case_wrapped(r['src_group'], r['dst_group'], r['src_attr'], r['dst_attr'], r['time_shifted'],
                                            r['weak'], r['initial_data'], r['cache'], r['prior_connection'], tuple(r.get('child_entity', (False, False))))
-    want = spec_reject(r['src_group'], r['dst_group'], r['src_attr'], r['dst_attr'], r['time_shifted'], r['weak'], r['initial_data'])
+    want = spec_reject(r['src_group'], r['dst_group'], r['src_attr'], r['dst_attr'], r['time_shifted'], r['weak'], r['initial_data'],
+                       dst_any=(tuple(r.get('child_entity', (False, False)))[1] == 2))
     print('observed:', res, 'tables unchanged:', unchanged, 'expected:', 'rejected' if want else 'accepted')
     bad = res.startswith('crashed') or (res == 'rejected') != bool(want) or (res == 'rejected' and not unchanged)
     if bad: print(f'VIOLATION property=C11 replay={path}')
